@@ -16,6 +16,20 @@ for line in p.stdout.splitlines():
     if e.get("Test") and e.get("Action") in ("pass", "fail"):
         (passed if e["Action"] == "pass" else failed).add(e["Package"] + "::" + e["Test"])
 missing = sorted(want - passed)
+# Timing-sensitive tests (the *Concurrent and timeout tests) fail sporadically when the machine is loaded: a test that
+# is missing after the full run is re-run alone (up to 3 times) and only counts as failing if it never passes.
+flaky = []
+for m in list(missing):
+    pkg, name = m.split("::")
+    rel = "." + pkg[len("github.com/valyala/fasthttp"):]
+    for _ in range(3):
+        r = subprocess.run(["go", "test", "-vet=off", "-count=1", "-run", "^" + name.split("/")[0] + "$", rel], cwd=repo, env=env, capture_output=True, text=True)
+        if r.returncode == 0:
+            missing.remove(m)
+            flaky.append(m)
+            break
+if flaky:
+    print("passed only when re-run alone (load-sensitive): " + ", ".join(flaky))
 print("stable-pass tests: %d, passed now: %d, missing/failed: %d" % (len(want), len(want & passed), len(missing)))
 for m in missing[:40]:
     print("  NOT PASSING:", m)
